@@ -140,6 +140,8 @@ type Sim struct {
 	Contended   int
 	panicVal    any
 	panicStack  string
+	listeners   []*httpListener
+	sigs        []sigReg
 }
 
 // S is the simulation the instrumented code runs in. One simulation per process at a time.
